@@ -45,6 +45,9 @@ def run(prog, rep):
     json_render.check(prog, rep, 'R8.7', want=('strings',))
     rep.rule('R8.8', 'every rapidjson Writer / PrettyWriter is instantiated with the target encoding of its output stream (AutoUTF over AutoUTFOutputStream, the buffer encoding over a string buffer)', floor=4)
     json_render.check(prog, rep, 'R8.8', want=('writers',))
+    rep.rule('R8.9', 'JSON and XML save paths hand the value to the back end without a value-changing conversion (the lexical value in the document is the value saved)', floor=20)
+    from rules import c01
+    c01.check_save_conversions(prog, rep, 'R8.9', ('BitSerializer::Json::', 'BitSerializer::Xml::'))
 
     enum = prog.enums.get(ENUM)
     if enum is None:
